@@ -194,6 +194,11 @@ let run_c27 id (c : cfg) (stream : n list) (obs : string list) =
        if impl_panics && res <> "PANIC" then mismatch id "impl panicked (%s), model does not" e
        else if (not impl_panics) && e <> mend then mismatch id "end model=%s impl=%s" mend e
      | _ -> mismatch id "no END observation");
+    (* the whole stack's allocation (BMP layer + BGP decoder) against BMPStack_alloc_proportional *)
+    if !use_stack then begin
+      let a = int_of_n (stack_alloc c init stream) and l = List.length stream in
+      if a > 11901 * l + 5800 then mismatch id "stack allocation %d exceeds the proven bound %d" a (11901 * l + 5800)
+    end;
     (* Router.serve as one function *)
     (match serve od ua c init stream with
      | SDone (st2, cost, fr2) ->
